@@ -19,7 +19,8 @@ from synkit.Graph.Matcher.subgraph_matcher import SubgraphMatch, SubgraphSearchE
 import synkit.Graph.Matcher.graph_morphism as gmorph
 
 from ..kernel import Sim, Violation, rng_for, derive
-from ..seams import GCControl
+from ..seams import GCControl, Seams
+from ..executor import World
 from . import graphref as gr
 
 PROP = "C07"
@@ -29,7 +30,7 @@ TIERS = {
 }
 STEP_CAP = 500000
 SHRINK_BUDGET = 300
-FAULT_OPS = ("gc", "drop_graph")
+FAULT_OPS = ("gc", "drop_graph", "alloc")
 PROBES = ["cache_entry_read_by_engine_with_other_attrs", "weak_entry_purged_by_gc", "proper_subgraph_query",
           "filter_on_off_pair", "one_edit_neighbour_pair", "relabelled_pair", "hcount_asymmetric_pair",
           "contained_and_mapped", "engine_shares_graph_with_other_engine"]
@@ -163,6 +164,9 @@ ENGINE_CFGS = [
     {"node_attrs": ["element", "charge"], "edge_attrs": ["order"], "wl1": False, "max_mappings": None},
     {"node_attrs": [], "edge_attrs": [], "wl1": True, "max_mappings": 1},
     {"node_attrs": ["charge"], "edge_attrs": ["order"], "wl1": True, "max_mappings": None},
+    {"node_attrs": ["charge", "element"], "edge_attrs": ["order"], "wl1": True, "max_mappings": None},
+    {"node_attrs": ["charge", "element"], "edge_attrs": [], "wl1": True, "max_mappings": 1},
+    {"node_attrs": ["element", "charge"], "edge_attrs": [], "wl1": True, "max_mappings": 2},
 ]
 
 
@@ -193,6 +197,9 @@ def generate(seed: int, tier: str = "quick") -> Dict[str, Any]:
     for _ in range(n_eng):
         ops.append({"op": "new_engine", "s": s(), "cfg": rng.randrange(len(ENGINE_CFGS))})
     faulty = rng.random() < 0.7
+    if faulty and rng.random() < 0.6:
+        ops.append({"op": "alloc", "s": s(), "p_reuse": rng.choice([0.3, 0.6, 1.0, 1.0]),
+                    "pick": rng.choice(["lifo", "fifo", "rand"]), "gc_p": rng.choice([0.05, 0.3, 0.6])})
     for _ in range(rng.randint(4, 24)):
         c = rng.random()
         if faulty and c < 0.08:
@@ -252,18 +259,22 @@ def _pat_ge(pk: Any, hk: Any) -> bool:
 
 
 def execute(case: Dict[str, Any], sim: Sim) -> None:
+    world = World(sim)
+    seams = Seams()
     with GCControl():
         saved = GraphMatcherEngine.__dict__.get("_wl_cache")
+        seams.install(id_fn=world.id_fn())
         try:
             if saved is not None:
                 GraphMatcherEngine._wl_cache = type(saved)()
-            _run(case, sim)
+            _run(case, sim, world)
         finally:
+            seams.uninstall()
             if saved is not None:
                 GraphMatcherEngine._wl_cache = saved
 
 
-def _run(case: Dict[str, Any], sim: Sim) -> None:
+def _run(case: Dict[str, Any], sim: Sim, world: World) -> None:
     pool: List[Dict[str, Any]] = []      # {"spec","g","snap","touched": set of node_attr tuples, "kind"}
     engines: List[Dict[str, Any]] = []
 
@@ -328,6 +339,7 @@ def _run(case: Dict[str, Any], sim: Sim) -> None:
     for op in case["ops"]:
         sim.step()
         k = op["op"]
+        world.reseed(op.get("s", 0))
         rng = rng_for(op.get("s", 0), "c07op")
         if k == "new_graph":
             add_graph(op["spec"], "rand")
@@ -346,10 +358,13 @@ def _run(case: Dict[str, Any], sim: Sim) -> None:
         if k == "new_engine":
             new_engine(op["cfg"])
             continue
+        if k == "alloc":
+            world.set_alloc_policy(op["p_reuse"], op["pick"], op["gc_p"])
+            sim.event("alloc", [op["p_reuse"], op["pick"], op["gc_p"]])
+            continue
         if k == "gc":
             before = len(getattr(GraphMatcherEngine, "_wl_cache", ()) or ())
-            gc.collect()
-            sim.fault("gc")
+            world.main_alloc.collect()
             after = len(getattr(GraphMatcherEngine, "_wl_cache", ()) or ())
             if after < before:
                 sim.probe("weak_entry_purged_by_gc")
